@@ -63,8 +63,8 @@ def value_table() -> dict:
     return dict(name="tv", cols=[("rid", "int"), ("x", "int"), ("y", "int"), ("p", "bool"), ("q", "bool"), ("f", "float")], rows=rows)
 
 
-SIGMA = ["a", "b", "'", '"', "\\", "%", "_", "-", ";", "/", "*", " ", "\n", "\u00e9", ".", "$", "^", "(", "[", "+", "?", "|", "{"]
-DIGRAPHS = ["--", "/*", "';", "\\'", "%%", "__", "$0", ".*", "a%", "_b"]
+SIGMA = ["a", "b", "'", '"', "\\", "%", "_", "-", ";", "/", "*", " ", "\n", "\u00e9", ".", "$", "^", "(", "[", "+", "?", "|", "{", ":"]
+DIGRAPHS = ["--", "/*", "';", "\\'", "%%", "__", "$0", ".*", "a%", "_b", "\\:", " :a", ":a"]
 
 
 def string_table() -> dict:
